@@ -4,6 +4,8 @@
 f18_0:
   ret
   lea d_f18_0(%rip),%rax
+  mov wvsv2@GOTPCREL(%rip),%rax
+  mov wvsv0(%rip),%rax
   ret
 .section .data.d_f18_0,"aw",@progbits
 .globl d_f18_0
